@@ -48,7 +48,8 @@ FIELD_KINDS = ["flip_ident", "flip_key", "flip_auth", "flip_cands", "flip_cid", 
                "zero_key", "short_key", "ident_other"]
 TIME_KINDS = ["duplicate", "replay_retry", "late_removed", "slow_candidate"]
 KINDS = ["none"] + FIELD_KINDS + TIME_KINDS + ["cid_swap", "reorder", "garbage_cands", "dup_created",
-                                                     "relabel_as_created", "relabel_as_extended", "fallback_exits"]
+                                                     "relabel_as_created", "relabel_as_extended", "fallback_exits",
+                                                     "late_relay_after", "late_relay_before", "late_relay_after_nodelay"]
 
 
 def z(n):
@@ -862,7 +863,7 @@ class Attack:
         from ipv8.messaging.anonymization.payload import CreatedPayload, ExtendedPayload
         n = type(payload).__name__
         c = self.circuit
-        if self.pos == "network" or self.kind in ("none", "fallback_exits", "cid_swap", "reorder", "dup_created", "relabel_as_created",
+        if self.pos == "network" or self.kind.startswith("late_relay") or self.kind in ("none", "fallback_exits", "cid_swap", "reorder", "dup_created", "relabel_as_created",
                                                   "relabel_as_extended"):
             return [payload]
         if self.fired and self.kind not in ("duplicate",):
@@ -948,6 +949,16 @@ class Attack:
             self.static = default_eccrypto.generate_key("curve25519")
         is_created = bool(plaintext) and data[29] == 3
         to_origin = tuple(dst) == tuple(origin_addr)
+        if self.kind.startswith("late_relay"):
+            # the created of the candidate of exchange k >= 2, on its way to the relay, is withheld; it is delivered
+            # later unchanged - from the candidate's address, or (odd seeds) replayed from somebody else's
+            if not is_created or to_origin:
+                return [(dst, data)]
+            self.fired += 1
+            self.log.append(("wire", "created to the relay", self.kind))
+            frm = src if self.rng.random() < 0.5 else ("10.9.9.9", 999)
+            self.stash.append(lambda: net.net.queue.append((frm, dst, data)))
+            return []
         if self.kind in TIME_KINDS:
             # whole datagrams: the answer on its way to the originator (plaintext created or encrypted extended)
             if not to_origin or (self.k == 1 and not is_created) or (self.k > 1 and plaintext):
@@ -1021,6 +1032,8 @@ def specs(ctx):
                     continue
                 if kind == "fallback_exits" and not (pos == "network" and k == 2):
                     continue
+                if kind.startswith("late_relay") and not (pos == "network" and k >= 2):
+                    continue
                 relay_role = (pos == "first" and k == 2) or (pos == "middle" and k == 3)
                 if kind == "relabel_as_created" and not ((pos == "network" and k >= 2) or relay_role):
                     continue
@@ -1065,7 +1078,14 @@ async def scenario(spec, base_seed, sweep=None):
                         ov.network.remove_peer(p)
         # slow_candidate: an honest but slow candidate answers after the retry to the next candidate went out; no
         # required exit, so that the last hop position has alternative candidates as well
-        ckw = {} if kind in ("slow_candidate", "fallback_exits") else {"exit_flags": [2]}
+        ckw = {} if kind in ("slow_candidate", "fallback_exits") or kind.startswith("late_relay") else {"exit_flags": [2]}
+        if kind.startswith("late_relay"):
+            # hop k >= 2 is retried with another candidate through the same relay while the relay's request for the
+            # abandoned candidate is still pending: the originator gives up after 3 s, the relay remembers for 10 s
+            o.settings.next_hop_timeout = 3
+            if kind.endswith("nodelay"):
+                for ov in net.nodes.values():
+                    ov.settings.remove_tunnel_delay = 0
         c1 = net.new_circuit(o, hops, **ckw)
         two = kind in ("ident_other", "cid_swap", "reorder")
         c2 = net.new_circuit(o, hops, exit_flags=[2]) if two else None
@@ -1081,7 +1101,14 @@ async def scenario(spec, base_seed, sweep=None):
         else:
             net.net.filter = lambda src, dst, data: atk.on_wire(net, src, dst, data)
         await net.drive()
-        if kind in ("replay_retry", "late_removed", "slow_candidate") or (atk.fired and c1.state != "READY"):
+        if kind.startswith("late_relay"):
+            await loop.advance(3.5)          # the originator's retry goes out (extend to the next candidate)
+            await net.idle()
+            if kind != "late_relay_before":
+                await net.drive()            # ... is answered and accepted: the hop is established
+            atk.release()                    # now the abandoned candidate's created reaches the relay
+            await net.drive()
+        elif kind in ("replay_retry", "late_removed", "slow_candidate") or (atk.fired and c1.state != "READY"):
             for _ in range(8 if kind == "late_removed" else 1):
                 await loop.advance(10.5)
                 await net.idle()
@@ -1103,11 +1130,38 @@ async def scenario(spec, base_seed, sweep=None):
         await loop.advance(6.0)          # lets pending remove_circuit tasks pass their delay (purge events)
         await net.drive()
         info["final"] = {n: snapshot(ov) for n, ov in net.nodes.items()}
+        info["path"] = path_check(net, c1) if c1.state == "READY" and c1.circuit_id in o.circuits else []
         info["state"] = (c1.state, len(c1._hops))
         info["holders"] = holders(net)
         net.active = False
         await net.stop()
     return net, atk, info
+
+
+def path_check(net, c):
+    """follow the relay routes of a READY circuit from the first hop on: every route must lead to the node that
+    the originator's hop list names at that position, and that node must hold the originator's keys for the hop"""
+    bad = []
+    node = net.by_key(c._hops[0].peer.public_key.key_to_bin())
+    cid = c.circuit_id
+    for i in range(1, len(c._hops)):
+        if node is None:
+            break
+        route = node.relay_from_to.get(cid)
+        want = net.by_key(c._hops[i].peer.public_key.key_to_bin())
+        if route is None or route.direction != 0:
+            bad.append((True, "hop %d: %s has no forward route for the circuit" % (i + 1, node._verif_name)))
+            break
+        nxt = net.node_of(route.hop.address)
+        held = set()
+        if nxt is not None:
+            held = {keybytes(e.hop.keys) for e in nxt.exit_sockets.values()} | {keybytes(r.hop.keys) for r in nxt.relay_from_to.values()}
+        if nxt is not want or keybytes(c._hops[i].keys) not in held:
+            bad.append((nxt is not want, "hop %d: the route of %s leads to %s, the hop list names %s; that node holds the hop's keys: %s"
+                       % (i + 1, node._verif_name, nxt._verif_name if nxt is not None else route.hop.address,
+                          want._verif_name if want is not None else "?", keybytes(c._hops[i].keys) in held)))
+        node, cid = nxt, route.circuit_id
+    return bad
 
 
 def holders(net):
@@ -1295,7 +1349,7 @@ def oracle(net, atk, info, report):
     # (5) honest runs complete, with the selected peers in order, and carry data
     c1 = info.get("c1")
     if spec[3] in ("none", "reorder", "duplicate", "dup_created", "relabel_as_created", "relabel_as_extended",
-                   "fallback_exits") and c1 is not None:
+                   "fallback_exits", "late_relay_after", "late_relay_after_nodelay") and c1 is not None:
         if info["state"] != ("READY", spec[0]):
             report("honest/not-ready", "circuit not READY after an honest build (%s, state %s, %d hops)" % (spec, *info["state"]))
         else:
@@ -1310,6 +1364,15 @@ def oracle(net, atk, info, report):
             for cid, ok in info.get("data", []):
                 if not ok:
                     report("honest/data-not-delivered", "READY circuit did not carry data to the exit (%s)" % spec)
+    # (6) the circuit leads where the hop list says: the relays' routes end at the nodes holding the hops' keys
+    # (a hop accepted from a forged answer has keys nobody holds - the documented limit of the MAC - so the keys are
+    # only demanded at the end of the route in the runs that must complete honestly)
+    honest_kinds = ("none", "reorder", "duplicate", "dup_created", "relabel_as_created", "relabel_as_extended",
+                    "fallback_exits", "late_relay_after", "late_relay_after_nodelay", "late_relay_before", "slow_candidate",
+                    "replay_retry")
+    for wrong_node, b in info.get("path", []):
+        if wrong_node or spec[3] in honest_kinds:
+            report("path/relay-route-leads-elsewhere", "%s (%s)" % (b, spec))
     # exceptions escaping the receive path (e.g. RuntimeError of a failed cell decryption) are C03/C04 matter:
     # counted in the evidence, not judged here
     info["escaped"] = len(net.net.escaped)
